@@ -224,7 +224,7 @@ fn lf_config(preset: u64, msize: usize) -> LockFreePoolConfig {
 }
 impl Put for LfPut {
     fn alloc(&mut self, id: u64, size: usize, _align: usize) -> Option<Blk> {
-        let p = self.pool.allocate(size).ok()?;
+        let p = if id % 5 == 4 { self.pool.allocate_bulk_simd(&[size]).ok()?.pop()? } else { self.pool.allocate(size).ok()? };
         self.h.insert(id, (p, size));
         Some(Blk { addr: p.as_ptr() as usize, usable: size, mem: true })
     }
@@ -277,9 +277,18 @@ fn fc_config(preset: u64, mbs: usize, blocks: usize, align: usize, flags: u64) -
 struct BumpPut { scopes: Vec<zipora::memory::bump::BumpScope<'static>>, arena: Option<Box<BumpArena>>, plain: Option<BumpAllocator>, cap: usize }
 impl Put for BumpPut {
     fn alloc(&mut self, _id: u64, size: usize, align: usize) -> Option<Blk> {
-        let p = if let Some(s) = self.scopes.last() { s.alloc_bytes(size, align) }
-                else if let Some(a) = &self.arena { a.alloc_bytes(size, align) }
-                else { self.plain.as_ref().unwrap().alloc_bytes(size, align) }.ok()?;
+        let p = if let Some(s) = self.scopes.last() {
+                    if size == 8 && align == 8 { s.alloc::<u64>().map(|p| p.cast::<u8>()) }
+                    else if align == 4 && size % 4 == 0 { s.alloc_slice::<u32>(size / 4).map(|p| p.cast::<u8>()) }
+                    else { s.alloc_bytes(size, align) } }
+                else if let Some(a) = &self.arena {
+                    if size == 8 && align == 8 { a.alloc::<u64>().map(|p| p.cast::<u8>()) }
+                    else if align == 4 && size % 4 == 0 { a.alloc_slice::<u32>(size / 4).map(|p| p.cast::<u8>()) }
+                    else { a.alloc_bytes(size, align) } }
+                else { let a = self.plain.as_ref().unwrap();
+                    if size == 8 && align == 8 { a.alloc::<u64>().map(|p| p.cast::<u8>()) }
+                    else if align == 4 && size % 4 == 0 { a.alloc_slice::<u32>(size / 4).map(|p| p.cast::<u8>()) }
+                    else { a.alloc_bytes(size, align) } }.ok()?;
         Some(Blk { addr: p.as_ptr() as usize, usable: size, mem: true })
     }
     fn free(&mut self, _id: u64) -> bool { true }
@@ -395,16 +404,16 @@ impl Drop for BasicPut { fn drop(&mut self) {
 } }
 
 // ---------------- TieredMemoryAllocator / MemoryMappedAllocator / NUMA / hugepages ----------------
-struct TieredPut { h: HashMap<u64, TieredAllocation>, a: TieredMemoryAllocator }
+struct TieredPut { h: HashMap<u64, TieredAllocation>, a: TieredMemoryAllocator, global: bool }
 impl Put for TieredPut {
     fn alloc(&mut self, id: u64, size: usize, _align: usize) -> Option<Blk> {
-        let mut t = self.a.allocate(size).ok()?;
+        let mut t = if self.global { zipora::memory::tiered_allocate(size) } else { self.a.allocate(size) }.ok()?;
         let blk = Blk { addr: t.as_ptr::<u8>() as usize, usable: t.size(), mem: true };
         let _ = t.as_mut_slice().len();
         self.h.insert(id, t);
         Some(blk)
     }
-    fn free(&mut self, id: u64) -> bool { let t = self.h.remove(&id).unwrap(); self.a.deallocate(t).is_ok() }
+    fn free(&mut self, id: u64) -> bool { let t = self.h.remove(&id).unwrap(); if self.global { zipora::memory::tiered_deallocate(t).is_ok() } else { self.a.deallocate(t).is_ok() } }
     fn cfg_align(&self) -> usize { 8 }
 }
 impl Drop for TieredPut { fn drop(&mut self) { let hs: Vec<u64> = self.h.keys().copied().collect(); for id in hs { self.free(id); } } }
@@ -611,7 +620,7 @@ fn run_case(cx: &mut Ctx, c: &Value, force: bool) {
             let cfg = if u(c, "preset") == 1 { TieredConfig::default() } else {
                 TieredConfig { enable_small_pools: f & 1 != 0, enable_medium_pools: f & 2 != 0, enable_mmap_large: f & 4 != 0, enable_hugepages: f & 8 != 0, ..TieredConfig::default() } };
             let a = match guarded(|| TieredMemoryAllocator::new(cfg)) { Ok(Ok(a)) => a, _ => { cx.sum.dist("pool_new_refused"); return; } };
-            let mut put = TieredPut { h: HashMap::new(), a };
+            let mut put = TieredPut { h: HashMap::new(), a, global: u(c, "preset") == 2 };
             drive(cx, cell, c, &mut put, &ops);
         }
         "mmap" => {
@@ -684,9 +693,9 @@ fn gen_ops(r: &mut Rng, n: u64, classes: &[u64], cap: u64, huge: bool, foreign: 
 fn gen_case(r: &mut Rng, which: u64, bins: &[u64]) -> Value {
     match which {
         0 => { // lockfree
-            let preset = *r.pick(&[0u64, 0, 0, 0, 1, 3]);
+            let preset = *r.pick(&[0u64, 0, 0, 0, 0, 0, 1, 3, 2]);
             let msize = if preset == 0 || r.chance(2, 3) { *r.pick(&[256u64, 1024, 4096, 4096, 16384, 65536, 1 << 20]) } else { 0 };
-            let cap = if msize == 0 { 16 << 20 } else { msize };
+            let cap = if msize == 0 { [16u64 << 20, 64 << 20, 256 << 20, 16 << 20][preset as usize] } else { msize };
             let cl = classes_for("lockfree", bins);
             let n = r.range(3, 70);
             json!({"cell": "lockfree", "preset": preset, "msize": msize, "raii": r.below(2), "ops": gen_ops(r, n, &cl, cap, true, true, &[1])})
@@ -762,7 +771,7 @@ fn gen_case(r: &mut Rng, which: u64, bins: &[u64]) -> Value {
             let n = r.range(3, 30);
             let mut ops = gen_ops(r, n, &cl, 1 << 20, false, false, &[1]);
             for o in ops.iter_mut() { if o[0] == 0 { o[1] = if r.chance(3, 4) { (*r.pick(&cl) as i64 + *r.pick(&[-1i64, 0, 0, 1])).max(1) as u64 } else { r.range(1, 40000) }; } }
-            json!({"cell": "tiered", "preset": r.below(2), "flags": r.below(16), "ops": ops})
+            json!({"cell": "tiered", "preset": r.below(3), "flags": r.below(16), "ops": ops})
         }
         8 => { // mmap allocator
             let min = *r.pick(&[1u64, 4096, 16384, 65536]);
